@@ -351,6 +351,9 @@ class Program:
             if is_generic_param(selfty):
                 return [self.fns[i] for (st, i) in cands if i in self.fns], "generic"
             return [], "extern"
+        if res and not t.get("virtual"):
+            # statically resolved to a body outside the analysed crates (std / core impl)
+            return [], "extern"
         tr = t.get("callee_trait")
         if tr and tr in self.trait_impls:
             name = callee.rsplit("::", 1)[1]
